@@ -25,8 +25,8 @@ def map_json(x, rho):
 
 class C17(InterpProp):
     id = 'C17'
-    quick_cases = 150
-    thorough_cases = 3000
+    quick_cases = 600
+    thorough_cases = 20000
     n_ops = 30
     rule = ('(a) random well-formed charts (code not mentioning state names) and a random order-preserving renaming of '
             'a random subset of their states (root, sources of internal transitions, initial/memory targets and history '
